@@ -650,8 +650,15 @@ def d3b_skip_key_is_own_anchor(chk: Check) -> None:
     main = c17.fn(prog, ROTATE, "main")
     tests = [t for t in walk_local(main.node) if isinstance(t, ast.Compare)
              and len(t.ops) == 1 and isinstance(t.ops[0], (ast.In, ast.NotIn))
-             and "seen" in src(t.comparators[0]) and
-             isinstance(t.left, ast.Name)]
+             and isinstance(t.comparators[0], ast.Name) and
+             isinstance(t.left, ast.Name) and
+             # the record: a local list that the tested name is appended to
+             any(isinstance(c, ast.Call) and
+                 isinstance(c.func, ast.Attribute) and
+                 c.func.attr == "append" and
+                 src(c.func.value) == src(t.comparators[0]) and
+                 c.args and src(c.args[0]) == t.left.id
+                 for c in walk_local(main.node))]
     if not tests:
         return      # C19-D3 reports a missing / misplaced skip test
     name = tests[0].left.id
@@ -901,6 +908,11 @@ def run(chk: Check) -> None:
     d10_offset_sign_applies_to_the_whole_delta(chk)
     d11_parser_per_file(chk)
     d13_every_loaded_document_is_searched(chk)
+    from rules.shared import attribute_after_augmented_rebinding_rule
+    attribute_after_augmented_rebinding_rule(
+        chk, "C19-D14", ("yamlpath/patches/timestamp.py",
+                         "yamlpath/common/nodes.py",
+                         "yamlpath/common/parsers.py"), 20)
     from rules.shared import single_consumption_rule
     single_consumption_rule(
         chk, "C19-D12", ("yamlpath/commands/eyaml_rotate_keys.py",
